@@ -607,13 +607,34 @@ func (c *Ctx) RequireFailureWithFacts(rule string, f *ssa.Function, errName stri
 type valueOrigin struct {
 	val ssa.Value
 	at  ssa.Instruction
+	to  *ssa.BasicBlock // the φ's block when the origin is a φ-input (the edge at.Block() → to carries it)
+}
+
+// originFacts: what holds when the origin's value is the one used: the facts
+// dominating the supplying point plus, for a φ-input arriving straight from a
+// branch, the facts of that very edge.
+func originFacts(og valueOrigin) map[string]bool {
+	have := factsAt(og.at)
+	if iff, ok := og.at.(*ssa.If); ok && og.to != nil {
+		b := iff.Block()
+		if b.Succs[0] != b.Succs[1] {
+			for j, sc := range b.Succs {
+				if sc == og.to {
+					for _, ft := range edgeFacts(iff, j) {
+						have[ft] = true
+					}
+				}
+			}
+		}
+	}
+	return have
 }
 
 func valueOrigins(v ssa.Value, at ssa.Instruction) []valueOrigin {
 	var out []valueOrigin
 	seen := map[ssa.Value]bool{}
-	var walk func(v ssa.Value, at ssa.Instruction, d int)
-	walk = func(v ssa.Value, at ssa.Instruction, d int) {
+	var walk func(v ssa.Value, at ssa.Instruction, to *ssa.BasicBlock, d int)
+	walk = func(v ssa.Value, at ssa.Instruction, to *ssa.BasicBlock, d int) {
 		if phi, ok := v.(*ssa.Phi); ok && d < 6 && !seen[v] {
 			seen[v] = true
 			for i, e := range phi.Edges {
@@ -621,13 +642,13 @@ func valueOrigins(v ssa.Value, at ssa.Instruction) []valueOrigin {
 				if len(p.Instrs) == 0 {
 					continue
 				}
-				walk(canon(e), p.Instrs[len(p.Instrs)-1], d+1)
+				walk(canon(e), p.Instrs[len(p.Instrs)-1], phi.Block(), d+1)
 			}
 			return
 		}
-		out = append(out, valueOrigin{v, at})
+		out = append(out, valueOrigin{v, at, to})
 	}
-	walk(v, at, 0)
+	walk(v, at, nil, 0)
 	return out
 }
 
